@@ -169,6 +169,16 @@ def make_keymap(klepto, km, serializer='pickle', algorithm='md5', sentval=None):
     raise ValueError(km)
 
 
+class BadText(object):
+    """neither printable nor picklable"""
+    def __repr__(self):
+        raise TypeError('no text form')
+    __str__ = __repr__
+
+    def __reduce_ex__(self, protocol):
+        raise TypeError('no pickled form')
+
+
 class Classes(object):
     """key classes as a dict would see them (hash + ==); unhashable keys compare with == only"""
     def __init__(self):
@@ -339,6 +349,20 @@ def worker(jobfile, outfile):
     import klepto
     assert os.path.realpath(klepto.__file__).startswith(os.path.realpath(job['repo']))
     out = []
+    if job.get('preamble'):
+        # this session has a past: before the calls that are compared it keyed (or tried to key) arguments that the encoders
+        # refuse - a generator, an object without a printable form - through the 'safe' decorators, which swallow the failure
+        import dill
+        for km in (klepto.keymaps.picklemap(serializer='pickle'), klepto.keymaps.picklemap(serializer='dill'), klepto.keymaps.picklemap(serializer=dill),
+                   klepto.keymaps.picklemap(), klepto.keymaps.stringmap(), klepto.keymaps.hashmap(algorithm='md5'),
+                   klepto.keymaps.picklemap(serializer='json')):
+            fz = klepto.safe.inf_cache(keymap=km)(lambda *a, **k: None)
+            for bad in ((n for n in (1, 2)), BadText(), {1: (n for n in (1,))}):
+                try:
+                    fz(bad)
+                    fz(1, opt=bad)
+                except Exception:
+                    pass
     for item in job['items']:
         group, km, variant = item['group'], item['km'], item.get('variant')
         res = {'khex': [], 'kinds': [], 'evals': []}
